@@ -116,3 +116,56 @@ class GuardClient(Client):
 
 def make_guard_client(world: Any, k: int, opts: dict) -> Client:
     return GuardClient(opts)
+
+
+class WindowClient(GuardClient):
+    """GuardClient + the 'ws_early' command: WebSocket bytes sent while the server's handshake response is still
+    in flight (the peer's reading is paused, so the client has not seen the 101 / 200 yet).
+
+        ('cmd', k, 'ws_early', stream_id, bytes)     stream_id is ignored on the HTTP/1.1 carrier
+        ('cmd', k, 'accept_wait')                    sends nothing: lets a source wait for the same instant
+
+    The command is a scheduling device: it is enabled exactly once an application instance of this connection's
+    world has issued websocket.accept, i.e. it places the arrival of the bytes in the window between the
+    application's decision and the completion of the server's send of the response."""
+
+    world: Any = None
+    # the client accepts response heads far larger than the transport's write buffer limits
+    BIG_HEADER_LIST = 1 << 22
+
+    def __init__(self, opts: dict) -> None:
+        super().__init__(opts)
+        if self.h2 is not None:
+            self.h2.conn.decoder.max_header_list_size = self.BIG_HEADER_LIST
+
+    def accepted_by_app(self) -> bool:
+        w = self.world
+        if w is None:
+            return False
+        return any(s[2].get("type") == "websocket.accept" for i in w.instances for s in i.sends)
+
+    def cmd_enabled(self, ev: tuple) -> bool:
+        if ev[2] == "accept_wait":  # pure guard: the application has decided to accept
+            return self.accepted_by_app()
+        if ev[2] == "ws_early":
+            if not self.accepted_by_app():
+                return False
+            if self.h2 is not None and self.h1 is None:
+                return self.h2.cmd_enabled("datan", (ev[3], ev[4], False))
+            return True
+        return super().cmd_enabled(ev)
+
+    def command(self, ev: tuple) -> bytes:
+        if ev[2] == "accept_wait":
+            return b""
+        if ev[2] == "ws_early":
+            if self.h2 is not None and self.h1 is None:
+                return self.h2.command("datan", (ev[3], ev[4], False))
+            return ev[4]
+        return super().command(ev)
+
+
+def make_window_client(world: Any, k: int, opts: dict) -> Client:
+    c = WindowClient(opts)
+    c.world = world
+    return c
